@@ -5272,6 +5272,11 @@ class SecureAPDU(APCI):
 
     def to_knx(self) -> bytearray:
         """Serialize to KNX/IP raw data."""
+        if len(self.secured_data.sequence_number_bytes) != 6:
+            raise ConversionError("Sequence number must be 6 bytes.")
+        if len(self.secured_data.message_authentication_code) != 4:
+            raise ConversionError("Message authentication code must be 4 bytes.")
+
         payload = self.scf.to_knx() + self.secured_data.to_knx()
         return encode_cmd_and_payload(self.CODE, appended_payload=payload)
 
